@@ -100,17 +100,29 @@ func Discharge(items []struct {
 			res := &Result{Obl: it.Obl, Run: it.Run, File: file}
 			if it.Obl.ExpectSat {
 				// vacuity cover: must not be unsat
-				st, out, ms := runSolver(SolverCfg{Name: "z3-5.1.0/cover", Cmd: []string{"z3-new", "-smt2", "-T:2"}}, file, 2)
+				st, out, ms := runSolver(SolverCfg{Name: "z3-5.1.0/cover", Cmd: []string{"z3-new", "-smt2", "-T:3"}}, file, 3)
 				res.Status, res.Output, res.Ms, res.Solver = st, out, ms, "z3-5.1.0/default"
 				results[i] = res
 				return
 			}
 			cfgs := solverConfigs(timeoutS)
+			if !thorough {
+				cfgs = cfgs[:3] // quick: z3 5.1 E-matching, z3 5.1 default, cvc5
+			}
 			for ci, cfg := range cfgs {
 				to := timeoutS
-				if ci == 0 && !thorough {
-					to = min(timeoutS, 5)
-					cfg.Cmd[2] = "-T:" + fmt.Sprint(to)
+				if !thorough {
+					switch ci {
+					case 0:
+						to = timeoutS
+						cfg.Cmd[2] = "-T:" + fmt.Sprint(to)
+					case 1:
+						to = timeoutS
+						cfg.Cmd[2] = "-T:" + fmt.Sprint(to)
+					case 2:
+						to = max(timeoutS/2, 5)
+						cfg.Cmd[2] = "--tlimit=" + fmt.Sprint(to*1000)
+					}
 				}
 				if cfg.Name == "cvc5-1.0.3" && strings.Contains(text, "(lambda ") {
 					continue
